@@ -99,7 +99,7 @@ def differ(a, b):
 def schedules(tier):
     alpha = ['P', 1, 2, 'ALL']
     out = [[]]
-    depth = 2 if tier == 'quick' else 4
+    depth = 2 if tier == 'quick' else 3
     for n in range(1, depth + 1):
         out += [list(s) for s in itertools.product(alpha, repeat=n)]
     # single-byte delivery with a Pending before every byte
@@ -196,7 +196,7 @@ def worker(job):
     ex.max_steps = 3000000
     scheds = schedules(tier)
     bounds = encode.Bounds('quick')
-    bounds.max_shapes = 2 if tier == 'quick' else 6
+    bounds.max_shapes = 2 if tier == 'quick' else 3
     out = []
     for i in idxs:
         view, cont, path = targets[i]
@@ -279,7 +279,7 @@ def run(tier, only=None):
             for fd in r['findings']:
                 ck.violation('%s/%s' % (r['path'], fd['kind']), fd['what'], dict(fd, message=r['path']), confirmed=True)
     ck.assume('read_exact futures (tokio ReadExact, async-std ReadExactFuture) are modelled from their documented contract (vf/models.py _rex_poll); the coroutine state machines of the tokio_/astd_ readers and helpers are executed from their MIR')
-    ck.assume('schedules: all sequences over {Pending, 1 byte, 2 bytes, everything} up to length 2 (quick) / 4 (thorough), plus single-byte delivery with and without a Pending before every byte; inputs: canonical encodings of the first shapes, truncations, arbitrary bytes of the same length')
+    ck.assume('schedules: all sequences over {Pending, 1 byte, 2 bytes, everything} up to length 2 (quick) / 3 (thorough), plus single-byte delivery with and without a Pending before every byte; inputs: canonical encodings of the first shapes, truncations, arbitrary bytes of the same length')
     ck.assume('write variants build a Vec with the same write_into_vec and hand it to write_all once (checked structurally by C01 on write_into_vec); world tokio/async-std header readers are the same source text as the sync ones checked in C02-C (not re-executed here)')
     return ck.finish({'states': max(tot['runs'], 1), 'transitions': max(tot['runs'] * 3, 1), 'traces_validated_against_impl': 0, 'messages': tot['messages'], 'inputs': tot['inputs'], 'async_runs_compared': tot['runs'],
                       'schedules_per_input': nsched, 'functions_encoded_count': len(fns), 'functions_encoded': sorted(f for f in fns if 'tokio' in f or 'astd' in f)[:60],
